@@ -5,6 +5,8 @@
    and with Close), from an empty manager and an arbitrary coordinator store. *)
 From Coq Require Import List ZArith Bool.
 From SV Require Import C06.Model C06.Spec C06.Proofs C06.Proofs2 C06.Proofs3 C06.Proofs4.
+From SV Require Gen.DecC06.   (* not imported: its names coincide with the model's *)
+From SV Require Import Gen.DecTypes C06.TieGen.
 Import ListNotations.
 Open Scope Z_scope.
 
@@ -115,3 +117,58 @@ Theorem c06_close_terminates : forall c st0 ops rs,
   closed (run c (flat_map attempt rs) (step c s0 CloseBegin)) = true.
 Proof. exact close_terminates. Qed.
 Print Assumptions c06_close_terminates.
+
+(* ---- regeneration tie: the model's leaf functions are the definitions decgen regenerates from
+   offset_manager.go on every run (golden coq/Gen/DecC06.v; obligations coq/Tie/DecEq_C06.v).
+   [st_of enc x] = (offset, metadata, dirty) of the model's record, [frame_of x] = (done, managed),
+   [enc] any injective naming of metadata strings by the model's integers with enc 0 = "" ([menc] is one). *)
+Theorem c06_tie_mark : forall enc o m x,
+  st_of enc (Model.mark o m x) = DecC06.mark_offset (p_off x) (enc (p_meta x)) (p_dirty x) o (enc m) /\
+  frame_of (Model.mark o m x) = frame_of x.
+Proof. exact tie_mark. Qed.
+Print Assumptions c06_tie_mark.
+
+Theorem c06_tie_reset : forall enc o m x,
+  st_of enc (Model.reset o m x) = DecC06.reset_offset (p_off x) (enc (p_meta x)) (p_dirty x) o (enc m) /\
+  frame_of (Model.reset o m x) = frame_of x.
+Proof. exact tie_reset. Qed.
+Print Assumptions c06_tie_reset.
+
+Theorem c06_tie_update_committed : forall enc, meta_enc_ok enc -> forall o m x,
+  st_of enc (Model.update_committed o m x) =
+    DecC06.update_committed (p_off x) (enc (p_meta x)) (p_dirty x) o (enc m) /\
+  frame_of (Model.update_committed o m x) = frame_of x.
+Proof. exact tie_update_committed. Qed.
+Print Assumptions c06_tie_update_committed.
+
+Theorem c06_tie_next_offset : forall enc, meta_enc_ok enc -> forall c x,
+  (fst (Model.next_offset c x), enc (snd (Model.next_offset c x))) =
+    DecC06.next_offset (p_off x) (enc (p_meta x)) (c_initial c).
+Proof. exact tie_next_offset. Qed.
+Print Assumptions c06_tie_next_offset.
+
+(* handleResponse's verdict, composed form: for a managed partition with a block in the request, the
+   model's three per-partition functions are the three readings of the generated action list *)
+Theorem c06_tie_verdict : forall enc tir code present req codes p x bo bm r,
+  p_managed x = true -> get p req = Some (bo, bm) -> reads_as tir code present (get p codes) ->
+  let acts := fst (DecC06.commit_verdict tir code present bo (enc bm)) in
+  handle_one req codes p x =
+    (if acts_update acts then Model.update_committed bo bm (applied_flag x) else x) /\
+  (forall o s, In (OM_update_committed o s) acts -> o = bo /\ s = enc bm) /\
+  resp_errs req codes ((p, x) :: r) = map (fun e => EvErr p (err_id e)) (acts_errs acts) ++ resp_errs req codes r /\
+  resp_releases req codes ((p, x) :: r) = (acts_release acts || resp_releases req codes r).
+Proof. exact tie_verdict. Qed.
+Print Assumptions c06_tie_verdict.
+
+(* the generated verdict as a function of the model's class of the error code (and its exit) *)
+Theorem c06_tie_verdict_class : forall enc tir code present v bo bm,
+  reads_as tir code present v ->
+  DecC06.commit_verdict tir code present bo (enc bm) =
+    (acts_of enc v bo bm, match v with Some _ => ExFall | None => ExContinue end).
+Proof. exact tie_verdict_class. Qed.
+Print Assumptions c06_tie_verdict_class.
+
+(* the naming hypothesis is satisfiable *)
+Theorem c06_tie_enc_exists : meta_enc_ok menc.
+Proof. exact menc_ok. Qed.
+Print Assumptions c06_tie_enc_exists.
